@@ -61,7 +61,67 @@ class AttrModel:
                 f'len={len(self.value) if self.value is not None else None}>')
 
 
-def build_db(device, spec, clock_sleep=0.05):
+# -----------------------------------------------------------------------------
+# Other ways of building the same database (C11: "the permissions that were asked for")
+# -----------------------------------------------------------------------------
+ROUTES = ('objects', 'strings', 'adapter', 'template', 'config-dict', 'config-file')
+PERMISSION_NAMES = ['READABLE', 'WRITEABLE', 'READ_REQUIRES_ENCRYPTION', 'WRITE_REQUIRES_ENCRYPTION',
+                    'READ_REQUIRES_AUTHENTICATION', 'WRITE_REQUIRES_AUTHENTICATION',
+                    'READ_REQUIRES_AUTHORIZATION', 'WRITE_REQUIRES_AUTHORIZATION']      # bit 0 .. bit 7 (att.py)
+PROPERTY_NAMES = ['BROADCAST', 'READ', 'WRITE_WITHOUT_RESPONSE', 'WRITE', 'NOTIFY', 'INDICATE',
+                  'AUTHENTICATED_SIGNED_WRITES', 'EXTENDED_PROPERTIES']                 # bit 0 .. bit 7 (Part G 3.3.1.1)
+
+
+def permission_text(perm: int, salt: int = 0):
+    """The permission byte written the way the documentation / the JSON device configurations write it: flag
+    names separated by ',' or by '|', in any order. A byte without any flag has no such spelling: the number."""
+    names = [n for i, n in enumerate(PERMISSION_NAMES) if perm >> i & 1]
+    if not names:
+        return 0
+    k = salt % len(names)
+    names = names[k:] + names[:k]
+    if salt % 3 == 2:
+        names.reverse()
+    return ('|' if salt % 2 else ',').join(names)
+
+
+def property_text(props: int) -> str:
+    return ','.join(n for i, n in enumerate(PROPERTY_NAMES) if props >> i & 1)
+
+
+def uuid_text(uuid_le: bytes, dashes: bool = True) -> str:
+    """UUID strings are big-endian hex, 128-bit ones optionally 8-4-4-4-12."""
+    hx = bytes(reversed(uuid_le)).hex().upper()
+    if len(uuid_le) == 16 and dashes:
+        return '-'.join([hx[0:8], hx[8:12], hx[12:16], hx[16:20], hx[20:32]])
+    return hx
+
+
+def config_services(spec, salt: int = 0):
+    """`gatt_services` of a device configuration (the dict / JSON form the apps load) for the value
+    attributes and descriptors of `spec`: permissions as strings. What this form cannot say (values, secondary
+    services, includes) is not used by the specs that take this route."""
+    out = []
+    k = salt
+    for s in spec:
+        chars = []
+        for c in s['chars']:
+            k += 1
+            descs = []
+            for d in c.get('descs', ()):
+                k += 1
+                descs.append({'descriptor_type': uuid_text(bytes.fromhex(d['uuid']), k % 2 == 0),
+                              'permissions': permission_text(d['perm'], k)})
+            entry = {'uuid': uuid_text(bytes.fromhex(c['uuid']), k % 2 == 1), 'properties': property_text(c['props']),
+                     'permissions': permission_text(c['perm'], k)}
+            if descs or k % 2:
+                entry['descriptors'] = descs
+            chars.append(entry)
+        out.append({'uuid': uuid_text(bytes.fromhex(s['uuid'])), 'characteristics': chars})
+    return out
+
+
+def build_db(device, spec, clock_sleep=0.05, route='objects', salt=0):
     """Adds the services described by `spec` (JSON-able) to device.gatt_server.
     Returns the list of AttrModel for *every* attribute of the server, in handle order
     (attributes bumble created by itself - GAP/GATT services, CCCDs - included).
@@ -120,33 +180,109 @@ def build_db(device, spec, clock_sleep=0.05):
             return att.AttributeValue(read=rd, write=wr)
         raise ValueError(m.kind)
 
+    def perm_arg(perm, k):
+        """objects: the IntFlag; other routes: the string spelling (a byte without flags has none)"""
+        if route == 'strings':
+            t = permission_text(perm, salt + k)
+            return t if isinstance(t, str) else att.Attribute.Permissions(perm)
+        return att.Attribute.Permissions(perm)
+
+    def adapt(cobj, cm, k):
+        """adapter route: the characteristic the application registers is an adapter around the one that was
+        given the permissions (gatt_adapters.py: the adapter copies uuid, properties, permissions, value and
+        descriptors of the characteristic it wraps)."""
+        from bumble import gatt_adapters
+        if cm.kind == 'static' and len(cm.value) == 4 and k % 2 == 0:
+            # a packed adapter: the application-side value is the number, the wire value its 4 bytes (a marker
+            # unit); a written value of another length cannot be decoded
+            cobj.value = struct.unpack('<I', cm.value)[0]
+            cm.state['adapter'] = 'packed'
+            return gatt_adapters.PackedCharacteristicAdapter(cobj, '<I')
+        if k % 3 == 0:
+            cm.state['adapter'] = 'base'
+            return gatt_adapters.CharacteristicAdapter(cobj)
+        cm.state['adapter'] = 'delegated'
+        return gatt_adapters.DelegatedCharacteristicAdapter(cobj, encode=lambda v: bytes(v), decode=lambda v: bytes(v))
+
+    k = 0
     services = []
     for s in spec:
         chars = []
-        for c in s['chars']:
+        for ci, c in enumerate(s['chars']):
+            k += 1
             descs = []
-            for d in c.get('descs', ()):
+            for di, d in enumerate(c.get('descs', ())):
+                k += 1
                 dm = AttrModel(index=d['index'], handle=0, type=wire_type(bytes.fromhex(d['uuid'])),
                                perm=d['perm'], value=ra.marker_value(d['index'], d['len']),
                                kind=d.get('kind', 'static'), role='descriptor', marker=d['len'] >= 4)
-                dobj = gatt.Descriptor(UUID.from_bytes(bytes.fromhex(d['uuid'])),
-                                       att.Attribute.Permissions(d['perm']), make_value(dm))
+                if route in ('config-dict', 'config-file'):
+                    created[('d', len(services), ci, di)] = dm
+                    continue
+                if route == 'strings' and k % 2:
+                    dobj = gatt.Descriptor(attribute_type=uuid_text(bytes.fromhex(d['uuid'])),
+                                           permissions=perm_arg(d['perm'], k), value=make_value(dm))
+                else:
+                    dobj = gatt.Descriptor(UUID.from_bytes(bytes.fromhex(d['uuid'])), perm_arg(d['perm'], k),
+                                           make_value(dm))
                 dm.obj = dobj
                 created[id(dobj)] = dm
                 descs.append(dobj)
             cm = AttrModel(index=c['index'], handle=0, type=wire_type(bytes.fromhex(c['uuid'])),
                            perm=c['perm'], value=ra.marker_value(c['index'], c['len']), kind=c['kind'],
                            role='value', marker=c['len'] >= 4)
-            cobj = gatt.Characteristic(UUID.from_bytes(bytes.fromhex(c['uuid'])),
-                                       gatt.Characteristic.Properties(c['props']),
-                                       att.Attribute.Permissions(c['perm']), make_value(cm), descs)
-            cm.obj = cobj
             cm.state['decl_perm'] = c.get('decl_perm')
+            if route in ('config-dict', 'config-file'):
+                created[('c', len(services), ci)] = cm
+                continue
+            if route == 'strings' and k % 2:
+                cobj = gatt.Characteristic(uuid=uuid_text(bytes.fromhex(c['uuid'])),
+                                           properties=gatt.Characteristic.Properties.from_string(property_text(c['props']))
+                                           if c['props'] else gatt.Characteristic.Properties(0),
+                                           permissions=perm_arg(c['perm'], k), value=make_value(cm), descriptors=descs)
+            else:
+                cobj = gatt.Characteristic(UUID.from_bytes(bytes.fromhex(c['uuid'])),
+                                           gatt.Characteristic.Properties(c['props']),
+                                           perm_arg(c['perm'], k), make_value(cm), descs)
+            if route == 'adapter':
+                cobj = adapt(cobj, cm, k)
+            cm.obj = cobj
             created[id(cobj)] = cm
             chars.append(cobj)
-        sobj = gatt.Service(UUID.from_bytes(bytes.fromhex(s['uuid'])), chars, primary=s.get('primary', True),
-                            included_services=[services[i] for i in s.get('includes', ())])
+        if route in ('config-dict', 'config-file'):
+            # Device.__init__ has built the services from the configuration: find what it made of each entry
+            # (service by its unique UUID, characteristics and descriptors by position) and give the attributes
+            # their values, which this form of configuration cannot carry
+            want = UUID.from_bytes(bytes.fromhex(s['uuid']))
+            sobj = next(x for x in server.services if x.uuid == want)
+            if len(sobj.characteristics) != len(s['chars']):
+                raise RuntimeError('configuration route: characteristic count differs')
+            for ci, (c, cobj) in enumerate(zip(s['chars'], sobj.characteristics)):
+                cm = created.pop(('c', len(services), ci))
+                cobj.value = make_value(cm)
+                cm.obj = cobj
+                created[id(cobj)] = cm
+                own = [x for x in cobj.descriptors]
+                if len(own) < len(c.get('descs', ())):
+                    raise RuntimeError('configuration route: descriptor count differs')
+                for di, dobj in enumerate(own[:len(c.get('descs', ()))]):
+                    dm = created.pop(('d', len(services), ci, di))
+                    dobj.value = make_value(dm)
+                    dm.obj = dobj
+                    created[id(dobj)] = dm
+            services.append(sobj)
+            continue
+        if route == 'template':
+            cls = type('GeneratedTemplateService', (gatt.TemplateService,),
+                       {'UUID': UUID.from_bytes(bytes.fromhex(s['uuid']))})
+            sobj = cls(chars, s.get('primary', True), [services[i] for i in s.get('includes', ())])
+        else:
+            sobj = gatt.Service(UUID.from_bytes(bytes.fromhex(s['uuid'])), chars, primary=s.get('primary', True),
+                                included_services=[services[i] for i in s.get('includes', ())])
         services.append(sobj)
+    if route == 'template':
+        # the application-facing entry point: Device.add_services
+        device.add_services([sobj for sobj in services if sobj not in server.services])
     for sobj in services:
         if sobj not in server.services:
             server.add_service(sobj)
@@ -179,9 +315,15 @@ def build_db(device, spec, clock_sleep=0.05):
             m = AttrModel(index=-1, handle=a.handle, type=t, perm=int(a.permissions),
                           value=bytes(a.value) if static else None,
                           kind='static' if static else 'builtin-dyn', role=role, obj=a)
+        asked = m.perm if id(a) in created else None
         m.handle = a.handle
         m.end = a.end_group_handle
         m.perm = int(a.permissions)
+        if asked is not None:
+            # what the application ASKED for is what the oracle judges by; what the server object holds is
+            # kept aside (equal, unless the construction route lost it)
+            m.state['stored_perm'] = m.perm
+            m.perm = asked
         if m.role == 'service':
             cur_svc = m
         m.svc = cur_svc
@@ -357,15 +499,35 @@ class Harness:
     # -- construction ---------------------------------------------------------
     @classmethod
     async def create(cls, r, seed: int, spec, *, eatt='off', eatt_spec=None, raw_central=True, max_delay=0,
-                     le_acl_len=None, server_max_mtu=None):
+                     le_acl_len=None, server_max_mtu=None, db_route='objects'):
         """eatt: 'off' | 'config' (DeviceConfiguration.eatt_enabled) | 'manual'
-        (Server.register_eatt(spec) with eatt_spec = dict(mtu, mps, max_credits))."""
+        (Server.register_eatt(spec) with eatt_spec = dict(mtu, mps, max_credits)).
+        db_route: how the database is handed to bumble (ROUTES): Service / Characteristic / Descriptor objects,
+        the same with permission strings, characteristic adapters, TemplateService subclasses through
+        Device.add_services, or `gatt_services` of a device configuration loaded from a dict / a JSON file."""
         from bumble import l2cap
         from bumble.device import DeviceConfiguration
         from bumble import hci
 
         vrig.seed_entropy(seed)
-        cfg = DeviceConfiguration()
+        if db_route in ('config-dict', 'config-file'):
+            as_dict = {'name': 'dev0', 'address': 'E0:E0:E0:E0:E0:E0', 'eatt_enabled': eatt == 'config',
+                       'gatt_services': config_services(spec, seed)}
+            if db_route == 'config-file':
+                import json
+                import os
+                import tempfile
+                fd, path = tempfile.mkstemp(suffix='.json', prefix='verif-device-config-')
+                try:
+                    with os.fdopen(fd, 'w', encoding='utf-8') as f:
+                        json.dump(as_dict, f)
+                    cfg = DeviceConfiguration.from_file(path)
+                finally:
+                    os.unlink(path)
+            else:
+                cfg = DeviceConfiguration.from_dict(as_dict)
+        else:
+            cfg = DeviceConfiguration()
         cfg.address = hci.Address('E0:E0:E0:E0:E0:E0', hci.Address.RANDOM_DEVICE_ADDRESS)
         cfg.name = 'dev0'
         cfg.eatt_enabled = eatt == 'config'
@@ -376,7 +538,7 @@ class Harness:
             dev.gatt_server.max_mtu = server_max_mtu
         if eatt == 'manual':
             dev.gatt_server.register_eatt(l2cap.LeCreditBasedChannelSpec(psm=EATT_PSM, **eatt_spec))
-        models = build_db(dev, spec)
+        models = build_db(dev, spec, route=db_route, salt=seed)
         await rg.power_on()
         if raw_central:
             raw_conn, server_conn = await rg.connect_le(1, 0)
